@@ -17,6 +17,7 @@ use strum::IntoEnumIterator;
 
 use crate::api_impl::owner::{check_ttl, post_tx};
 use crate::grin_core::core::FeeFields;
+use crate::grin_core::libtx::{build, proof::ProofBuilder};
 use crate::grin_keychain::Keychain;
 use crate::grin_util::secp::key::SecretKey;
 use crate::internal::{selection, tx, updater};
@@ -204,6 +205,38 @@ where
 			// Add inputs and outputs to original context
 			context.input_ids = temp_context.input_ids;
 			context.output_ids = temp_context.output_ids;
+
+			// Nothing has been stored or reserved yet. Before doing so, assemble the complete
+			// transaction from the reply and the selection just made (as repopulate_tx will do
+			// again after locking) and let complete_tx verify the counterparty's signature and
+			// the transaction, so that a bogus reply cannot make the wallet lock its outputs.
+			{
+				let mut check_sl = sl.clone();
+				check_sl.adjust_offset(&keychain, &context)?;
+				check_sl.amount = context.amount;
+				check_sl.fee_fields = context
+					.fee
+					.ok_or_else(|| Error::Fee("Missing fee fields".into()))?;
+				check_sl.add_participant_info(&keychain, &context, None)?;
+				let mut parts = vec![];
+				for (id, mmr_index, value) in &context.input_ids {
+					if w.get(id, mmr_index)?.is_coinbase {
+						parts.push(build::coinbase_input(*value, id.clone()));
+					} else {
+						parts.push(build::input(*value, id.clone()));
+					}
+				}
+				for (id, _, value) in &context.output_ids {
+					parts.push(build::output(*value, id.clone()));
+				}
+				check_sl.add_transaction_elements(
+					&keychain,
+					&ProofBuilder::new(&keychain),
+					parts,
+				)?;
+				check_sl.tx_or_err_mut()?.offset = check_sl.offset.clone();
+				tx::complete_tx(&mut *w, keychain_mask, &mut check_sl, &context)?;
+			}
 
 			// Store the updated context
 			{
